@@ -1,6 +1,7 @@
 package vm
 
 import (
+	"context"
 	"fmt"
 	"sync"
 
@@ -146,6 +147,23 @@ func (p *Promise) IsResolved() bool {
 func (p *Promise) AwaitSync() (value.Value, *value.StackTrace, value.Value) {
 	p.wg.Wait()
 	return p.result, p.stackTrace, p.err
+}
+
+// Wait for the result of the promise, gives up with `Std::ExecutionAbortedError`
+// when the context gets cancelled.
+func (p *Promise) AwaitSyncCtx(ctx context.Context) (value.Value, *value.StackTrace, value.Value) {
+	done := make(chan struct{})
+	go func() {
+		p.wg.Wait()
+		close(done)
+	}()
+
+	select {
+	case <-done:
+		return p.result, p.stackTrace, p.err
+	case <-ctx.Done():
+		return value.Undefined, &value.StackTrace{}, value.ExecutionAbortedError.ToValue()
+	}
 }
 
 // Wait for the result of the promise. Panics on error.
